@@ -28,12 +28,16 @@ func vrC13Shapes() [4]PointVector {
 	}
 }
 
-func vrC13History(k int) {
+func vrC13History(k, pre int) {
 	s := NewShapeIndex()
 	shapes := vrC13Shapes()
 	var ids [4]int32
 	var present [4]bool
 	n := 0
+	for ; n < pre; n++ { // concrete prefix: shapes added before the symbolic part of the history
+		ids[n] = s.Add(&shapes[n])
+		present[n] = true
+	}
 	for step := 0; step < k; step++ {
 		op := vr.Int("op")
 		vr.Assume(vr.And(op >= 0, op <= 3))
@@ -85,9 +89,21 @@ func Harness_C13_index_history() {
 	vr.Domain("RUF")
 	vr.Unwind(64)
 	if vr.Thorough() {
-		vrC13History(5)
+		vrC13History(5, 0)
 	} else {
-		vrC13History(4)
+		vrC13History(4, 0)
+	}
+}
+
+// The same history check started from an index that already holds two (unbuilt) shapes, so
+// that short symbolic histories reach states with several removals among three shapes.
+func Harness_C13_index_history_prefilled() {
+	vr.Domain("RUF")
+	vr.Unwind(64)
+	if vr.Thorough() {
+		vrC13History(4, 2)
+	} else {
+		vrC13History(3, 2)
 	}
 }
 
